@@ -4,7 +4,8 @@
    [wf_fields]) is Wire/WireGrammar.v; the scanner is Wire/WireModel.v
    ([default_dep] = DefaultRecursionLimit + 1 = 10001 group levels). *)
 From Coq Require Import List NArith ZArith.
-From PB Require Import Base.PBytes Wire.WireModel Wire.WireGrammar Wire.VarintP Wire.ScanP.
+From PB Require Import Base.PBytes Base.GoInt Wire.WireModel Wire.WireGrammar Wire.VarintP Wire.ScanP.
+From PB Require Import Gen.WireGo Wire.WireGoP.
 Import ListNotations.
 Open Scope N_scope.
 
@@ -26,14 +27,10 @@ Print Assumptions C02_varint_grammar.
 
 (* ---- ConsumeTag ---- *)
 Theorem C02_consume_tag_sound_complete :
-  forall bs num typ r, dec_tag bs = Ok (num, typ, r) <-> exists p, bs = p ++ r /\ is_tag p num typ.
-Proof. exact dec_tag_iff. Qed.
+  (forall bs num typ r, dec_tag bs = Ok (num, typ, r) <-> exists p, bs = p ++ r /\ is_tag p num typ) /\
+  (forall bs e, dec_tag bs = Err e -> e = Truncated \/ e = Overflow \/ e = FieldNumber).
+Proof. exact (conj dec_tag_iff dec_tag_err). Qed.
 Print Assumptions C02_consume_tag_sound_complete.
-
-Theorem C02_consume_tag_errors :
-  forall bs e, dec_tag bs = Err e -> e = Truncated \/ e = Overflow \/ e = FieldNumber.
-Proof. exact dec_tag_err. Qed.
-Print Assumptions C02_consume_tag_errors.
 
 (* ---- ConsumeFieldValue / ConsumeField: Ok exactly on the grammar ---- *)
 Theorem C02_consume_field_value_sound_complete :
@@ -49,44 +46,23 @@ Proof. exact consume_field_iff. Qed.
 Print Assumptions C02_consume_field_sound_complete.
 
 (* ---- never overreads ---- *)
-Theorem C02_consume_field_never_overreads :
-  forall bs num typ n, consume_field bs = Ok (num, typ, n) ->
-    n <= N.of_nat (length bs) /\ exists used rest, bs = used ++ rest /\ n = N.of_nat (length used).
-Proof. exact consume_field_no_overread. Qed.
-Print Assumptions C02_consume_field_never_overreads.
-
-Theorem C02_consume_field_value_never_overreads :
-  forall num typ bs n, consume_field_value num typ bs = Ok n -> n <= N.of_nat (length bs).
-Proof. exact consume_field_value_no_overread. Qed.
-Print Assumptions C02_consume_field_value_never_overreads.
-
-Theorem C02_scanner_returns_suffix :
-  forall dep num typ bs v r, parse_val dep num typ bs = Ok (v, r) -> exists p, bs = p ++ r.
-Proof. exact parse_val_suffix. Qed.
-Print Assumptions C02_scanner_returns_suffix.
+Theorem C02_never_overreads :
+  (forall bs num typ n, consume_field bs = Ok (num, typ, n) ->
+    n <= N.of_nat (length bs) /\ exists used rest, bs = used ++ rest /\ n = N.of_nat (length used)) /\
+  (forall num typ bs n, consume_field_value num typ bs = Ok n -> n <= N.of_nat (length bs)) /\
+  (forall dep num typ bs v r, parse_val dep num typ bs = Ok (v, r) -> exists p, bs = p ++ r).
+Proof. exact (conj consume_field_no_overread (conj consume_field_value_no_overread parse_val_suffix)). Qed.
+Print Assumptions C02_never_overreads.
 
 (* ---- totality: the fuel the model passes always suffices ---- *)
-Theorem C02_parse_val_total :
-  forall dep num typ bs, parse_val dep num typ bs <> Err OutOfFuel.
-Proof. exact parse_val_not_fuel. Qed.
-Print Assumptions C02_parse_val_total.
-
-Theorem C02_group_loop_total :
-  forall dep num bs acc, group_loop (parse_val dep) num (x00 :: bs) bs acc <> Err OutOfFuel.
-Proof. exact group_loop_total. Qed.
-Print Assumptions C02_group_loop_total.
-
-Theorem C02_consume_field_total : forall bs, consume_field bs <> Err OutOfFuel.
-Proof. exact consume_field_total. Qed.
-Print Assumptions C02_consume_field_total.
-
-Theorem C02_consume_field_value_total : forall num typ bs, consume_field_value num typ bs <> Err OutOfFuel.
-Proof. exact consume_field_value_total. Qed.
-Print Assumptions C02_consume_field_value_total.
-
-Theorem C02_consume_group_total : forall num bs, consume_group num bs <> Err OutOfFuel.
-Proof. exact consume_group_total. Qed.
-Print Assumptions C02_consume_group_total.
+Theorem C02_total :
+  (forall dep num typ bs, parse_val dep num typ bs <> Err OutOfFuel) /\
+  (forall dep num bs acc, group_loop (parse_val dep) num (x00 :: bs) bs acc <> Err OutOfFuel) /\
+  (forall bs, consume_field bs <> Err OutOfFuel) /\
+  (forall num typ bs, consume_field_value num typ bs <> Err OutOfFuel) /\
+  (forall num bs, consume_group num bs <> Err OutOfFuel).
+Proof. exact (conj parse_val_not_fuel (conj group_loop_total (conj consume_field_total (conj consume_field_value_total consume_group_total)))). Qed.
+Print Assumptions C02_total.
 
 (* every failure carries one of the six Go error codes -1..-6 *)
 Theorem C02_error_code_range :
@@ -100,18 +76,73 @@ Theorem C02_consume_group_strip_safe :
 Proof. exact consume_group_no_panic. Qed.
 Print Assumptions C02_consume_group_strip_safe.
 
-Theorem C02_consume_group_sound :
-  forall num bs body n, consume_group num bs = Ok (Some body, n) ->
+Theorem C02_consume_group_sound_complete :
+  (forall num bs body n, consume_group num bs = Ok (Some body, n) ->
     exists etag rest, bs = body ++ etag ++ rest /\ wf_fields (N.to_nat 10000) body /\
-                      is_tag etag num 4 /\ n = N.of_nat (length body + length etag).
-Proof. exact consume_group_iff. Qed.
-Print Assumptions C02_consume_group_sound.
+                      is_tag etag num 4 /\ n = N.of_nat (length body + length etag)) /\
+  (forall num body etag rest, wf_fields (N.to_nat 10000) body -> is_tag etag num 4 ->
+    consume_group num (body ++ etag ++ rest) = Ok (Some body, N.of_nat (length body + length etag))).
+Proof. exact (conj consume_group_iff consume_group_complete). Qed.
+Print Assumptions C02_consume_group_sound_complete.
 
-Theorem C02_consume_group_complete :
-  forall num body etag rest, wf_fields (N.to_nat 10000) body -> is_tag etag num 4 ->
-    consume_group num (body ++ etag ++ rest) = Ok (Some body, N.of_nat (length body + length etag)).
-Proof. exact consume_group_complete. Qed.
-Print Assumptions C02_consume_group_complete.
+(* ---- "the error is that of the first defect": the verdict is decided by the
+   bytes read so far.  (a) Appending bytes to the input changes nothing unless
+   the verdict was Truncated; (b) every proper prefix of a well-formed field is
+   Truncated.  So a non-Truncated error is caused by the shortest prefix that
+   produces it, and nothing but Truncated can be reported before a defect. ---- *)
+Theorem C02_verdict_decided_by_prefix :
+  forall bs ext,
+    match consume_field bs with
+    | Ok res => consume_field (bs ++ ext) = Ok res
+    | Err Truncated => True
+    | Err e => consume_field (bs ++ ext) = Err e
+    end.
+Proof. exact consume_field_ext. Qed.
+Print Assumptions C02_verdict_decided_by_prefix.
+
+Theorem C02_proper_prefix_is_truncated :
+  forall q ext num typ n,
+    wf_field default_dep (q ++ ext) num typ n -> N.of_nat (length q) < n -> consume_field q = Err Truncated.
+Proof. exact consume_field_prefix_truncated. Qed.
+Print Assumptions C02_proper_prefix_is_truncated.
+
+(* ---- ParseError: code -> error value (the Go function is regenerated and
+   proved equal to the table [parse_error]) ---- *)
+Theorem C02_parse_error_mapping :
+  ((forall n, parse_error n = PNil <-> (0 <= n)%Z) /\
+  parse_error (werr_code Truncated) = PUnexpectedEOF /\
+  parse_error (werr_code FieldNumber) = PFieldNumber /\
+  parse_error (werr_code Overflow) = POverflow /\
+  parse_error (werr_code Reserved) = PReserved /\
+  parse_error (werr_code EndGroup) = PEndGroup /\
+  parse_error (werr_code RecursionDepth) = PParse /\
+  (forall e, parse_error (werr_code e) <> PNil)) /\
+  (forall n, go_ParseError n = perr_go (parse_error n)).
+Proof. exact (conj parse_error_mapping go_ParseError_spec). Qed.
+Print Assumptions C02_parse_error_mapping.
+
+(* ---- Tier T: ConsumeVarint / ConsumeTag / ConsumeBytes of wire.go, regenerated
+   on every run, equal the model; in particular they never panic (the result
+   is a [Val]) and the error codes are those of the model ---- *)
+Theorem C02_go_Consume :
+  (forall bs, go_ConsumeVarint (zbytes bs) = Val (zres_vn (dec_varint bs) bs)) /\
+  (forall bs, go_ConsumeTag (zbytes bs) = Val (zres_tag (dec_tag bs) bs)) /\
+  (forall bs, (Z.of_nat (length bs) < 2^63)%Z ->
+    go_ConsumeBytes (zbytes bs) = Val (zres_bytes (dec_bytes bs) bs)).
+Proof. exact (conj go_ConsumeVarint_spec (conj go_ConsumeTag_spec go_ConsumeBytes_spec)). Qed.
+Print Assumptions C02_go_Consume.
+
+(* the constants of wire.go are those the model uses *)
+Theorem C02_go_constants :
+  (c_VarintType = 0 /\ c_Fixed64Type = 1 /\ c_BytesType = 2 /\ c_StartGroupType = 3 /\
+   c_EndGroupType = 4 /\ c_Fixed32Type = 5 /\
+   c_errCodeTruncated = werr_code Truncated /\ c_errCodeFieldNumber = werr_code FieldNumber /\
+   c_errCodeOverflow = werr_code Overflow /\ c_errCodeReserved = werr_code Reserved /\
+   c_errCodeEndGroup = werr_code EndGroup /\ c_errCodeRecursionDepth = werr_code RecursionDepth /\
+   c_MinValidNumber = 1 /\ c_MaxValidNumber = 2^29 - 1 /\
+   Z.to_nat (c_DefaultRecursionLimit + 1) = default_dep)%Z.
+Proof. exact go_constants. Qed.
+Print Assumptions C02_go_constants.
 
 (* ---- non-vacuity ---- *)
 (* field 1, varint 150 written non-minimally in three bytes *)
@@ -136,3 +167,12 @@ Example C02_ex_errors :
   consume_field [x0e] = Err Reserved /\ consume_field [x0b; x14] = Err EndGroup /\
   consume_field [x0c] = Err EndGroup /\ parse_val 1 1 3 [x0b; x0c; x0c] = Err RecursionDepth.
 Proof. vm_compute. repeat split; reflexivity. Qed.
+Example C02_ex_prefix :
+  consume_field [x0b; x12; x02; x61] = Err Truncated.
+Proof.
+  apply (C02_proper_prefix_is_truncated [x0b; x12; x02; x61] [x62; x1b; x1c; x8c; x00] 1 3 9).
+  - exact C02_ex_field_group.
+  - vm_compute. reflexivity.
+Qed.
+Example C02_ex_go_tag : go_ConsumeTag [0]%Z = Val (0, 0, -2)%Z.
+Proof. apply (proj1 (proj2 C02_go_Consume) [x00]). Qed.
